@@ -9,7 +9,7 @@ import heapq
 import itertools
 
 from .actors import (
-    Item, Unorderable, SrcPlan, FnPlan, ALL_FLAVOURS, FN_FLAVOURS, LOGGING_FLAVOURS,
+    Item, Unorderable, AwaitableItem, SrcPlan, FnPlan, ALL_FLAVOURS, FN_FLAVOURS, LOGGING_FLAVOURS,
     ASYNC_FLAVOURS, CONTAINER_FLAVOURS, SYNC_FLAVOURS, _behave, keyof,
 )
 
@@ -126,8 +126,12 @@ class Gen:
     def sprinkle(self, items):
         """Occasionally put ``None`` among the items: the one value tools like to use as their own marker"""
         if items and self.cfg.odd_items and self.ch.chance(1, 6):
+            # ... or an item that is itself awaitable (a future passed along as data): nobody is to await it
+            odd = self.ch.chance(1, 3)
             for _ in range(self.ch.between(1, 2)):
-                items[self.ch.draw(len(items))] = None
+                pos = self.ch.draw(len(items))
+                self.uid += 1
+                items[pos] = AwaitableItem(self.uid if not self.prefix else (self.prefix, self.uid)) if odd else None
         return items
 
     def alias(self, srcs):
